@@ -183,7 +183,7 @@ struct Resolver {
         for (auto& e : p.extras) {
             if (e.dir != dir) continue;
             if (prefix(e.path)) return true;
-            if (e.kind >= 1) { std::vector<std::string> full = e.path; full.push_back(e.name); if (prefix(full)) return true; }
+            if (e.kind == 1 || e.kind == 2) { std::vector<std::string> full = e.path; full.push_back(e.name); if (prefix(full)) return true; }
         }
         return false;
     }
@@ -356,6 +356,7 @@ void materialise(const TreePlan& p) {
         std::string dir = physPath(e.dir) + (e.path.empty() ? "" : "/" + join(e.path, "/"));
         sim::mkdirs(dir);
         if (e.kind == 0) sim::writeFile(dir + "/" + e.name, "not a module\n");
+        else if (e.kind == 3) { if (symlink(e.name.c_str(), (dir + "/" + e.name).c_str())) {} }   // points at itself: every lookup through it fails with ELOOP
         else sim::mkdirs(dir + "/" + e.name);
     }
     for (auto& a : p.aliases) {
@@ -619,6 +620,18 @@ TreePlan generate(sim::Rng& g) {
             if (o.dir == e.dir && o.path == e.path && o.name == e.name) clash = true;
         if (!clash) p.extras.push_back(e);
     }
+    // a root in which the first component of some module's package is a symbolic link to itself: probing that root raises a
+    // real file-system error (too many levels of symbolic links), not "no such file" - the search must go on to the next root
+    if (p.nDirs > 1 && g.chance(0.15)) {
+        const Module& m = p.modules[g.below(p.modules.size())];
+        if (!m.path.empty()) {
+            int d = (int)g.below((uint64_t)p.nDirs);
+            bool used = false;
+            for (auto& o : p.modules) if (o.dir == d && !o.path.empty() && o.path[0] == m.path[0]) used = true;
+            for (auto& o : p.extras) if (o.dir == d && ((!o.path.empty() && o.path[0] == m.path[0]) || (o.path.empty() && o.name == m.path[0]))) used = true;
+            if (!used) p.extras.push_back(Extra{d, {}, m.path[0], 3});
+        }
+    }
     // a top-level package alias (symlinked directory): a module reachable by two spellings
     if (g.chance(0.2)) {
         for (auto& m : p.modules) {
@@ -706,6 +719,7 @@ void runOne(const sim::Options& opt, uint64_t run, sim::RunReport& rep) {
     if (!p.searchPaths.empty()) rep.count("fs.with_search_paths");
     if (p.secondEntry >= 0) rep.count("fs.loader_reused");
     for (auto& r : p.searchPaths) if (r.spelling) rep.count("fs.respelled_roots");
+    for (auto& e : p.extras) if (e.kind == 3) rep.count("fs.root_with_self_referential_symlink");
     sim::Hash h;
     h.addStr(planJson(p).dump());
     rep.sig = h.h;
@@ -820,7 +834,7 @@ int main(int argc, char** argv) {
                                     "one run = one generated source tree (1-3 physical roots, packages to depth 3, 1-9 modules with correct/wrong/missing package lines, single/wildcard/default-package/bloch.* imports, shadow candidates in several roots, diamonds, at most one deliberate defect: cycle, missing import, wrong or missing package line, zero or two mains; non-module files, sub-directories and a directory named X.bloch in package directories; a symlinked package alias) materialised on disk in a plan-chosen creation order, with a choice of entry file spelling, search-path list and spellings (absolute, via symlink, dot-dot, relative) and working directory; the real ModuleLoader's result is compared with a reference resolver over the in-memory plan; every sixth run one open of one module fails (EACCES); half of the runs reuse the loader for a second and third load; non-trivial = more than one module; distinct = distinct plan",
                                     S.violations);
     Json& cov = const_cast<Json&>(ev.at("coverage"));
-    cov.set("faults_fired", Json::object().set("module_open_failed", Json((unsigned long long)R.counters["fs.open_failures_fired"])).set("loader_reused_for_another_entry", Json((unsigned long long)R.counters["fs.loader_reused"])).set("roots_spelled_through_symlink_dotdot_or_relative", Json((unsigned long long)R.counters["fs.respelled_roots"])));
+    cov.set("faults_fired", Json::object().set("module_open_failed", Json((unsigned long long)R.counters["fs.open_failures_fired"])).set("loader_reused_for_another_entry", Json((unsigned long long)R.counters["fs.loader_reused"])).set("roots_spelled_through_symlink_dotdot_or_relative", Json((unsigned long long)R.counters["fs.respelled_roots"])).set("probe_of_a_root_fails_with_ELOOP", Json((unsigned long long)R.counters["fs.root_with_self_referential_symlink"])));
     cov.set("components", Json::object().set("real", Json::arrayOf(std::vector<std::string>{"ModuleLoader", "std::filesystem / ifstream on a real scratch tree", "lexer", "parser"})).set("stub", Json::arrayOf(std::vector<std::string>{"fopen64 (interposed only to fail one chosen open)"})));
     cov.set("known_findings_hit", Json((unsigned long long)S.knownHits));
     cov.set("violation_details", S.details);
